@@ -11,7 +11,8 @@ THEOREMS = {
         "bf_pipe_refines", "bf_counter_inv", "bf_no_early_exit", "bf_exactly_once", "bf_measure", "bf_terminates",
         "bf_live_ctx_error_recorded", "bf_error_cancels", "bf_return_joins_workers",
         "limit_skip_window", "range_partition_exact", "seq_helper_eq_spec", "traversePaths_eq_spec", "terminals_eq_spec",
-        "acyclicNodes_eq_spec", "intermediaryPaths_eq_spec", "c17_partial", "c17_full_of_seq_paths",
+        "acyclicNodes_eq_spec", "intermediaryPaths_eq_spec", "traversePaths_order_eq_spec", "paths_fit_finite", "c17_seq_paths",
+        "c17_partial", "c17_full",
         # theorems about the protocol BEFORE the repair of finding F14 (cfg.fixed = false)
         "bf_terminates_partial_old", "bf_terminates_refuted_old", "c17_full_old_refuted"]],
     "Dawgs.Tie.C17Order": [TIE + t for t in [
@@ -19,8 +20,7 @@ THEOREMS = {
         "order_inc_before_submit", "order_dec_after_loop", "order_completion_after_dec",
         "order_defers_and_capacity", "order_coordinator", "order_error_path", "order_pipe"]],
 }
-STATED_NOT_PROVED = ["Dawgs.C17.Props.C17_seq_paths_full (the DFS candidate order of TraversePaths = the recursively defined list of maximal acyclic paths): "
-                     "exercised by the c17seq tie only; the filter-then-window equation itself is proved for every helper (seq_helper_eq_spec)"]
+STATED_NOT_PROVED = []
 
 
 def regen(ctx):
@@ -250,6 +250,6 @@ MANIFEST = {
             "and limit the stack loop returns exactly the skip/limit window of the FILTERED DFS candidate sequence (a rejected node never consumes budget); "
             "LimitSkipTracker window and the parallelNodeQuery range partition are proved for all inputs.",
     "note": "Partial: goroutine cleanup and promptness are observed by the harness (NumGoroutine settles, hang detector), not proved; the PathSegment.size roll-up "
-            "race is outside the LTS (counted under -race in the thorough tier); that the DFS candidate order of TraversePaths equals the recursive path definition is stated but only tested by the tie. Trusted: Lean "
+            "race is outside the LTS (counted under -race in the thorough tier). Trusted: Lean "
             "kernel, Go channel/select/atomic semantics, the syntactic extractor, the harness.",
 }
